@@ -12,7 +12,6 @@ import os
 import sys
 import time
 import traceback
-from concurrent.futures import ProcessPoolExecutor, as_completed
 
 import z3
 
@@ -87,13 +86,26 @@ class Case:
         return out
 
 
-def run_case(case: Case):
-    """Run one case in this process: returns a plain dict."""
+BRANCH_TIMEOUT_MS = 2000  # light (path feasibility) solver; "unknown" counts as feasible
+RETRY_SCALE = 4  # solver and wall-clock budgets of a further attempt, relative to the first
+RETRY_ATTEMPTS = 2  # further attempts for a case that a budget (not the engine's reach) left open
+RETRY_MAX_CASES = 48  # per run_cases call: a tree on which everything times out is not re-run wholesale
+
+
+def run_case(case: Case, attempt=0):
+    """Run one case in this process: returns a plain dict. attempt > 0 is a further attempt at a case whose
+    first run left an obligation open on a budget: same source text, same obligations, RETRY_SCALE times the
+    solver/branch/wall-clock budgets and another solver seed (z3's sequence solver is not stable on identical
+    input). More time and another seed cannot turn a false goal into a proved one."""
     from pyvc.ctx import Explorer
     from pyvc.interp import SOURCES
 
     t0 = time.time()
-    ex = Explorer(timeout_ms=case.timeout_ms, max_paths=case.max_paths, name=case.name, budget_s=case.budget_s)
+    # VERIF_BUDGET_SCALE multiplies every budget of every attempt (slower machine: > 1; < 1 emulates one, for testing)
+    scale = (RETRY_SCALE if attempt else 1) * float(os.environ.get("VERIF_BUDGET_SCALE", "1") or 1)
+    z3.set_param("smt.random_seed", attempt)
+    ex = Explorer(timeout_ms=max(1, int(case.timeout_ms * scale)), max_paths=case.max_paths, name=case.name,
+                  branch_timeout_ms=max(1, int(BRANCH_TIMEOUT_MS * scale)), budget_s=(case.budget_s * scale) if case.budget_s else None)
     recorded = {}
 
     def body(ctx):
@@ -159,27 +171,109 @@ def run_case(case: Case):
     }
 
 
-def _worker(spec):
+def _worker(spec, attempt=0):
     mod, fn, args = spec
     m = importlib.import_module(mod)
     case = getattr(m, fn)(*args)
-    return run_case(case)
+    return run_case(case, attempt)
+
+
+def _open_on_budget(r):
+    """Obligations of this result that a solver budget left open (timeout / unknown / canceled, unknown path
+    feasibility). Not counted: 'unsupported' and 'max_paths' (the engine's reach, the same on every attempt), and a
+    case that used up its whole wall-clock budget (known to be expensive, not unlucky: running it again with a larger
+    budget would multiply the cost of the check; it stays reported as undecided and covered by its stand-in)."""
+    if r is None or r.get("error"):
+        return []
+    if any(o["status"] == "undecided" and "case time budget exceeded" in str(o.get("info")) for o in r["obligations"]):
+        return []
+    return [o["name"] for o in r["obligations"]
+            if o["status"] == "undecided" and not o["name"].endswith("/unsupported") and "max_paths" not in str(o.get("info"))]
+
+
+def _n_undecided(r):
+    return sum(1 for o in r["obligations"] if o["status"] == "undecided")
+
+
+def _crash_result(spec, err):
+    return {"case": str(spec), "functions": [], "obligations": [], "failures": [], "paths": 0, "queries": 0, "solver_s": 0, "wall_s": 0,
+            "undecided_reasons": [], "flags": [], "error": err, "sources": {}}
+
+
+def _child(conn, spec, attempt):
+    try:
+        r = _worker(spec, attempt)
+    except BaseException:  # noqa: BLE001 - reported to the parent as a checker crash
+        r = _crash_result(spec, traceback.format_exc())
+    try:
+        conn.send(r)
+    finally:
+        conn.close()
+
+
+def _run_pool(specs, jobs, attempt=0):
+    """One forked child per case, at most `jobs` at a time. A child starts from the parent's state (modules imported,
+    no solver terms of any other case), so the solver sees the same input for a case whatever ran before it or next
+    to it: which cases share a worker - a matter of scheduling - no longer reaches the solver's search."""
+    import multiprocessing as mp
+    from multiprocessing.connection import wait
+
+    if os.environ.get("VERIF_INPROCESS"):  # debugging aid
+        return [_worker(s, attempt) for s in specs]
+    for mod in sorted({s[0] for s in specs}):
+        try:
+            importlib.import_module(mod)  # imported once here, inherited by every child
+        except Exception:  # noqa: BLE001 - the child reports it per case
+            pass
+    mpc = mp.get_context("fork")
+    out = [None] * len(specs)
+    running = {}  # parent end of the pipe -> (index, process)
+    nxt = 0
+    while nxt < len(specs) or running:
+        while nxt < len(specs) and len(running) < jobs:
+            rd, wr = mpc.Pipe(duplex=False)
+            pr = mpc.Process(target=_child, args=(wr, specs[nxt], attempt))
+            pr.start()
+            wr.close()
+            running[rd] = (nxt, pr)
+            nxt += 1
+        for rd in wait(list(running)):
+            i, pr = running.pop(rd)
+            try:
+                out[i] = rd.recv()
+            except (EOFError, OSError):
+                pr.join()
+                out[i] = _crash_result(specs[i], f"worker process ended without a result (exit code {pr.exitcode})")
+            rd.close()
+            pr.join()
+    return out
 
 
 def run_cases(specs, jobs=None):
-    """specs: list of (module, factory_name, args). Returns list of result dicts (order preserved)."""
+    """specs: list of (module, factory_name, args). Returns list of result dicts (order preserved).
+
+    A case that a budget left open gets up to RETRY_ATTEMPTS further attempts after the pool has drained (fewer
+    workers, RETRY_SCALE times the budgets, another solver seed). A further attempt replaces the earlier result only
+    if it leaves fewer obligations open and reports every failure the earlier one reported; the attempts are recorded
+    in the result ('attempts', 'first_attempt_open')."""
     jobs = jobs or int(os.environ.get("VERIF_JOBS", "0")) or min(16, os.cpu_count() or 4)
-    if jobs == 1 or len(specs) <= 1:
-        return [_worker(s) for s in specs]
-    out = [None] * len(specs)
-    with ProcessPoolExecutor(max_workers=jobs) as pool:
-        futs = {pool.submit(_worker, s): i for i, s in enumerate(specs)}
-        for f in as_completed(futs):
-            i = futs[f]
-            try:
-                out[i] = f.result()
-            except Exception:  # noqa: BLE001
-                out[i] = {"case": str(specs[i]), "functions": [], "obligations": [], "failures": [], "paths": 0, "queries": 0,
-                          "solver_s": 0, "wall_s": 0, "undecided_reasons": [], "flags": [], "error": traceback.format_exc(),
-                          "sources": {}}
+    out = _run_pool(specs, jobs)
+    if os.environ.get("VERIF_NO_RETRY"):
+        return out
+    for attempt in range(1, RETRY_ATTEMPTS + 1):
+        todo = [i for i, r in enumerate(out) if _open_on_budget(r)][:RETRY_MAX_CASES]
+        if not todo:
+            break
+        again = _run_pool([specs[i] for i in todo], max(1, min(jobs // 2, len(todo))), attempt)
+        for i, r2 in zip(todo, again):
+            r1 = out[i]
+            r1.setdefault("first_attempt_open", _open_on_budget(r1)[:5])
+            r1["attempts"] = attempt + 1
+            if r2.get("error"):
+                continue
+            if _n_undecided(r2) < _n_undecided(r1) and {f["obligation"] for f in r1["failures"]} <= {f["obligation"] for f in r2["failures"]}:
+                r2["first_attempt_open"], r2["attempts"] = r1["first_attempt_open"], attempt + 1
+                r2["wall_s"] = round(r2.get("wall_s", 0) + r1.get("wall_s", 0), 3)
+                r2["solver_s"] = round(r2.get("solver_s", 0) + r1.get("solver_s", 0), 3)
+                out[i] = r2
     return out
